@@ -115,8 +115,8 @@ LEVEL_TEXT = ('Coq theorems over ALL schedules (induction on the step relation o
               'c17_poolre_no_sleeper_after_shutdown, c17_poolre_no_deadlock; termination under fairness is not stated); NOT proved: '
               'more than two workers; ThreadPool with two-stage jobs (closures that hand a follow-up to the same '
               'pool, also after m_shutdown is set): conservation, lock discipline and the drained clause are proved for all '
-              'schedules (c17_poolre_conserved, c17_poolre_joined, c17_poolre_drained: multiset equality of handed-in and run '
-              'closures, uniqueness of ids not proved; also checked per schedule: end=undrained); Future<T>/Future<void> copy-assignment (self, shared, '
+              'schedules (c17_poolre_conserved, c17_poolre_joined, c17_poolre_drained; ids unique, every closure run exactly once: '
+              'c17_poolre_nodup, c17_poolre_exactly_once; also checked per schedule: end=undrained); Future<T>/Future<void> copy-assignment (self, shared, '
               'over a live state), std::swap and destruction order: modelled (init_fut_asg), lockset/lock discipline proved, '
               'absence of use-after-free only per enumerated schedule plus witnesses (ex_futasg_refcount, ex_futasg_finishes); '
               'IsComplete() polled concurrently with Set() (init_fut_poll over FutPoll.P2): lockset, lock discipline and exact wait '
